@@ -42,6 +42,8 @@ type cval struct {
 	elems   []*cval          // tuple results; array elements
 	fields  map[string]*cval // struct: a cursor object of the package (record{rest: data})
 	pointee *cval
+	lit     *ast.FuncLit // closure: a local cursor function (next := func(n int) []byte {...}) and the
+	litEnv  *cenv        // environment it closes over (captured variables are shared)
 }
 
 type codecInterp struct {
@@ -573,7 +575,7 @@ func (ci *codecInterp) eval(env *cenv, e ast.Expr) *cval {
 	case *ast.CallExpr:
 		return ci.call(env, x)
 	case *ast.FuncLit:
-		ci.fail(x, "function literal in the codec")
+		return &cval{kind: "closure", lit: x, litEnv: env}
 	}
 	return &cval{kind: "unknown"}
 }
@@ -762,6 +764,37 @@ func (ci *codecInterp) call(env *cenv, c *ast.CallExpr) *cval {
 			return unknown
 		}
 		return unknown
+	}
+	// a local closure (a cursor): its body runs in the environment it was made in
+	if id, ok := ast.Unparen(c.Fun).(*ast.Ident); ok {
+		if o := objOf(info, id); o != nil {
+			if cv := env.vars[o]; cv != nil && cv.kind == "closure" {
+				if ci.depth >= 4 {
+					ci.fail(c, "closure nesting")
+					return unknown
+				}
+				le := cv.litEnv
+				i := 0
+				for _, fld := range cv.lit.Type.Params.List {
+					for _, nm := range fld.Names {
+						if i < len(c.Args) {
+							le.vars[le.fi.Pkg.TypesInfo.Defs[nm]] = ci.eval(env, c.Args[i])
+						}
+						i++
+					}
+				}
+				ci.depth++
+				res, _ := ci.block(le, cv.lit.Body.List)
+				ci.depth--
+				switch len(res) {
+				case 0:
+					return unknown
+				case 1:
+					return res[0]
+				}
+				return &cval{kind: "tuple", elems: res}
+			}
+		}
 	}
 	// a helper of the package: spliced in
 	if callee := ci.p.staticCallee(env.fi.Pkg, c); callee != nil && callee.Pkg == env.fi.Pkg {
